@@ -153,6 +153,7 @@ type Sched struct {
 	goids    []goidEntry
 	stalled  int
 	inStable bool
+	prefer   *Task
 	stableSteps int
 }
 
@@ -428,6 +429,13 @@ func (s *Sched) pick() int {
 	if n == 1 {
 		return 0
 	}
+	if s.prefer != nil {
+		for i, t := range s.ready {
+			if t == s.prefer {
+				return i
+			}
+		}
+	}
 	if s.tapePos < len(s.cfg.Tape) {
 		return s.choose(StSched, n)
 	}
@@ -557,10 +565,10 @@ func (s *Sched) loop() {
 		s.last = t
 		s.steps++
 		t.Steps++
+		s.mu.Unlock()
 		if s.cfg.OnStep != nil {
 			s.cfg.OnStep(s.steps, t, len(s.ready)+1)
 		}
-		s.mu.Unlock()
 		t.wake <- struct{}{}
 	}
 }
@@ -719,4 +727,12 @@ func OtherSteps(t *Task) int {
 		return 0
 	}
 	return S.steps - t.Steps
+}
+
+// Prefer makes the controller release t whenever it is ready (nil: no preference). Used
+// by injection-point sweeps so that the injected request lands exactly where intended.
+func Prefer(t *Task) {
+	if S != nil {
+		S.prefer = t
+	}
 }
